@@ -337,6 +337,12 @@ def build_unit(u, tier, extra_defines=(), tag=""):
             raise Undecided("goto-instrument failed (%s): %s" % (u.uid, (err or out)[-1500:]))
         cur = nxt
         return out + err
+    # first: --replace-calls removes function pointers itself, after which the call-site labels are gone
+    if u.restrict_fp:
+        a = []
+        for k, v in u.restrict_fp.items():
+            a += ["--restrict-function-pointer", "%s/%s" % (k, ",".join(v))]
+        gi(a)
     if u.replace_calls:
         a = []
         for k, v in u.replace_calls.items():
@@ -363,11 +369,6 @@ def build_unit(u, tier, extra_defines=(), tag=""):
         # chunks to keep command lines short
         for i in range(0, len(a), 400):
             gi(a[i:i + 400])
-    if u.restrict_fp:
-        a = []
-        for k, v in u.restrict_fp.items():
-            a += ["--restrict-function-pointer", "%s/%s" % (k, ",".join(v))]
-        gi(a)
     if u.nondet_static:
         gi(["--nondet-static"])
     text = ""
@@ -701,7 +702,9 @@ def run_unit(u, tier, known):
         if res["obligations"] < u.min_obligations:
             raise Undecided("vacuity guard: %d obligations generated, at least %d expected (%s)"
                             % (res["obligations"], u.min_obligations, u.uid))
-        if len(c_ok) < u.canaries or c_bad:
+        # a failed obligation comes with a concrete trace, so it stands whatever the canaries say; an unreached
+        # canary only threatens a PASS (vacuity), and is checked when nothing failed
+        if (len(c_ok) < u.canaries or c_bad) and not failed:
             raise Undecided("vacuity guard: reachability canary not reached (%d of %d, %d proved "
                             "unreachable) in %s — preconditions contradictory or call does not return"
                             % (len(c_ok), u.canaries, len(c_bad), u.uid))
